@@ -1,12 +1,30 @@
 #!/bin/sh
 # usage: tools/try_seed.sh <patch.diff> <Cxx> [tier]
-# runs a check against a scratch worktree of /repo with the patch applied (never touches /repo itself)
+# runs a check against a scratch worktree of /repo with the patch applied (never touches /repo itself);
+# when the patch lives in a seed directory, writes <seed-dir>/detect-<Cxx>.json
 P="$1"; ID="$2"; TIER="${3:-quick}"
-NAME=$(basename $(dirname "$P"))-$ID-$$
+SD=$(cd "$(dirname "$P")" && pwd)
+NAME=$(basename "$SD")-$ID-$$
 WT=/tmp/try-$NAME; OUTD=/tmp/try-out-$NAME
 git -C /repo worktree add -q --detach $WT HEAD || exit 2
 if ! git -C $WT apply "$P"; then echo "patch does not apply"; git -C /repo worktree remove --force $WT; exit 2; fi
 mkdir -p $OUTD
-cd /verif && VERIF_REPO=$WT VERIF_OUT=$OUTD ./check "$ID" --tier "$TIER" 2>&1 | tail -6
-ls $OUTD/replays 2>/dev/null | head -3
+cd /verif && VERIF_REPO=$WT VERIF_OUT=$OUTD ./check "$ID" --tier "$TIER" > $OUTD/log 2>&1; RC=$?
+tail -6 $OUTD/log
+/venv/bin/python - "$OUTD" "$ID" "$TIER" "$RC" "$SD" <<'PY'
+import json, sys, os
+outd, pid, tier, rc, sd = sys.argv[1:6]
+ev = {}
+try:
+    ev = json.load(open(os.path.join(outd, "evidence", pid + ".json")))
+except Exception:
+    pass
+viol = [dict(what=str(v.get("what", v))[:300]) if isinstance(v, dict) else dict(what=str(v)[:300]) for v in ev.get("violations", [])]
+d = dict(check=pid, tier=tier, exit_code=int(rc), detected=(int(rc) == 1), wall_s=ev.get("wall_s"), violations=viol[:6],
+         repo_head=os.popen("git -C /repo rev-parse --short HEAD").read().strip())
+if os.path.exists(os.path.join(sd, "patch.diff")):
+    json.dump(d, open(os.path.join(sd, "detect-%s.json" % pid), "w"), indent=1)
+print(json.dumps(d)[:600])
+PY
 git -C /repo worktree remove --force $WT
+rm -rf $OUTD
